@@ -7,6 +7,10 @@ CHAIN_NOTE = ("Trusted base: the harness wallet/miner/reference models in /verif
               "Sampling, not enumeration: a clean batch is evidence, not proof.")
 
 CHECKS = {
+ "C08": dict(engine="storesim", cat="exploration", ref="5/C08",
+   text="Store level: a real prunable MMR file backend is driven with generated histories of units of work (boundary-by-boundary rewinds, appends, removals by pattern, sync or discard), compactions at any earlier boundary and reopen, for fixed- and variable-size elements, and compared after every step (root, size, data/hash of every unspent leaf, leaf set, Merkle proofs) with an independent unpruned reference MMR. Chain level: chains long enough for Chain::compact to act; compact() at random points must leave the state digest, unspent view and validate(false) unchanged and still allow a reorg inside the horizon.",
+   technique="deterministic simulation: seeded store histories with compaction/reopen/discard faults against an unpruned reference model",
+   note="Trusted base: the unpruned reference MMR in /verif/sim/src/refmodel.rs and the workload generator's adherence to the store usage protocol; fault model is clean reopen/discard (crash consistency is C09)."),
  "C01": dict(engine="chainsim", cat="exploration", ref="5/C01",
    text="Seeded simulation over fork trees with fees, all kernel variants and offsets plus one re-rooted, re-mined byzantine block per value-corruption class; after every head change stored block sums are compared with sums recomputed over the full state, Chain::validate runs and the wallet-known value of the unspent set must equal the height-determined supply; corrupted blocks must be refused on every delivery path.",
    technique="deterministic simulation: seeded histories with single-field value corruptions against a conservation oracle"),
@@ -80,7 +84,9 @@ def main():
             "add_only": True,
         },
         "engines": [
-            {"name": "chainsim", "path": "/verif/sim/src/chainsim.rs", "serves_properties": [p for p in claimed if CHECKS[p]["engine"] == "chainsim"],
+            {"name": "storesim", "path": "/verif/sim/src/storesim.rs", "serves_properties": [p for p in claimed if p == "C08"],
+             "kind_free_text": "deterministic simulation of one prunable MMR backend against an unpruned reference"},
+            {"name": "chainsim", "path": "/verif/sim/src/chainsim.rs", "serves_properties": [p for p in claimed if CHECKS[p]["engine"] == "chainsim" or p == "C08"],
              "kind_free_text": "deterministic simulation of N real Chain nodes on a simulated network with byzantine inputs"},
         ],
         "checks": checks,
